@@ -158,6 +158,8 @@ impl PathParser {
     }
 
     fn process_instruction(&mut self) -> Result<()> {
+        #[cfg(feature = "verif")]
+        crate::verif::scan_step("path", self.tokens.index, self.tokens.data.len());
         if self.command.is_none() || self.tokens.at_command()? {
             // "The command letter can be eliminated on subsequent commands if the same
             // command is used multiple times in a row (e.g., you can drop the second
@@ -259,6 +261,8 @@ impl PathParser {
     }
 
     fn evaluate(&mut self) -> Result<()> {
+        #[cfg(feature = "verif")]
+        crate::verif::scan_begin("path", self.tokens.data.len());
         self.tokens.skip_whitespace();
         while !self.tokens.at_end() {
             self.process_instruction()?;
